@@ -1,6 +1,6 @@
 #!/bin/sh
 # Runs the repository's suite with the guard OFF and compares with BASELINE.json's stable_pass list.
-cd /repo || exit 2
+cd "${BASELINE_DIR:-/repo}" || exit 2   # BASELINE_DIR: a scratch worktree with a seeded change (development aid)
 unset XMLSCHEMA_VERIF_TRACE XMLSCHEMA_VERIF_TRACE_FILE
 OUT=$(mktemp -d)
 /venv/bin/python -m pytest -q -p no:cacheprovider --timeout=900 --continue-on-collection-errors -n 16 --junitxml=$OUT/j.xml >$OUT/log 2>&1
